@@ -70,6 +70,7 @@ type Explorer struct {
 	covers  map[string]bool
 	asserts int
 	symFns  map[string]bool
+	internal map[string]*Term // engine-created variables of this path (uninterpreted outcomes)
 	dom     map[int][]uint64 // refined value domain per variable id (from single-variable constraints)
 	rel     map[int]bool     // variable occurs in a constraint together with other variables
 	domDecided int
@@ -146,6 +147,7 @@ func (x *Explorer) beginPath(script []decision) {
 	x.asserts = 0
 	x.dom = map[int][]uint64{}
 	x.rel = map[int]bool{}
+	x.internal = map[string]*Term{}
 }
 
 func (x *Explorer) addPC(c *Term) {
@@ -539,6 +541,11 @@ func (x *Explorer) noteSym() {
 
 // newVar registers a fresh symbolic input.
 func (x *Explorer) newVar(kind, tag string, s Sort, vs []uint64) *Term {
+	if kind == "internal" {
+		if t, ok := x.internal[tag]; ok {
+			return t
+		}
+	}
 	n := x.tagN[tag]
 	x.tagN[tag] = n + 1
 	name := tag
@@ -561,6 +568,8 @@ func (x *Explorer) newVar(kind, tag string, s Sort, vs []uint64) *Term {
 	}
 	if kind != "internal" {
 		x.nd = append(x.nd, ndRecord{Kind: kind, Tag: tag, Term: t})
+	} else {
+		x.internal[tag] = t
 	}
 	if x.model != nil {
 		if vs != nil && len(vs) > 0 {
